@@ -46,7 +46,7 @@ BEH_ALL = [peers.B_SPEC, peers.B_NEWER, peers.B_SAME, peers.B_UPTODATE, peers.B_
 BEH_W_ALL = [6, 4, 2, 2, 2, 2, 1, 1, 1, 1]
 NET_FAULTS = [F_REFUSED, F_RESET_BEFORE, F_RESET_AFTER, F_TIMEOUT, F_TIMEOUT_AFTER, F_HTTP500, F_SHORT_LEN,
               F_CUT_CLOSE, F_GARBAGE]
-ORGFID = [(None, None), ("ORGX", "1"), ("ORGX", "2")]
+ORGFID = [(None, None), ("ORGX", "1"), ("ORGX", "2"), ("Org & Co", "1")]
 VERSIONS = [203, 102, 220, 103, 151, 160, 200, 211]
 
 
